@@ -7,6 +7,9 @@ import re
 NAMES = ["context", "a", "b", "c", "d", "e", "f", "g", "h", "m1", "m2", "m3", "m4", "b1", "b2", "b3", "caller", "capture", "loop", "x1", "x2", "x3", "x4", "x5", "x6"]
 
 
+ENABLE_LOOP = [True]
+
+
 class Names:
     def __init__(self):
         self.ix = {n: i for i, n in enumerate(NAMES)}
@@ -31,7 +34,9 @@ def gen_nodes(rng, depth, in_def, counter):
         elif r < 0.45:
             out.append("<%% %s = %s %%>" % (v, rng.choice(["1", rng.choice("abcdefgh"), "%s + 1" % v])))
         elif r < 0.55:
-            out.append("%% for %s in %s:\n${%s}\n%% endfor\n" % (v, rng.choice("abcdefgh"), v))
+            inner = rng.choice(["${%s}" % v, "${%s}" % v, "${loop.index}", '<%%call expr="wrapper(%s)">${loop.index}</%%call>' % v,
+                                '<%%call expr="wrapper(%s)">${%s}</%%call>' % (v, v), "<%block>${loop.last}</%block>"])
+            out.append("%% for %s in %s:\n%s\n%% endfor\n" % (v, rng.choice("abcdefgh"), inner))
         elif r < 0.70 and depth > 0:
             counter[0] += 1
             args = rng.sample("abcdefgh", rng.randint(0, 2))
@@ -67,6 +72,12 @@ def tok(node, names, root=True):
         if node.ismodule:
             return None
         return "c %s %s" % (names.lst(node.undeclared_identifiers()), names.lst(node.declared_identifiers()))
+    if isinstance(node, parsetree.ControlLine) and node.keyword == "for" and not node.isend:
+        # what LoopVariable answers for this loop is an input, like the names each node reads and binds
+        from mako import codegen
+        lv = codegen.LoopVariable()
+        node.accept_visitor(lv)
+        return "f %s %s %d" % (names.lst(node.undeclared_identifiers()), names.lst(node.declared_identifiers()), 1 if (lv.detected and ENABLE_LOOP[0]) else 0)
     if isinstance(node, (parsetree.Expression, parsetree.ControlLine, parsetree.IncludeTag)):
         return "k %s %s" % (names.lst(node.undeclared_identifiers()), names.lst(node.declared_identifiers()))
     if isinstance(node, parsetree.TextTag):
@@ -118,6 +129,7 @@ def cases_of(src):
 
     class FakeCompiler:
         reserved_names = frozenset()
+        enable_loop = ENABLE_LOOP[0]
     mi = codegen._Identifiers(FakeCompiler())
     module_decl = set()
     for n in tree.nodes:
